@@ -124,7 +124,9 @@ def modify_oracle(b, report, rng):
         iso.open_fp(fp)
         try:
             try:
-                iso.modify_file_in_place(io.BytesIO(new_data), new_len, iso_path)
+                payload = io.BytesIO(new_data)
+                payload.seek(rng.choice([0, 0, len(new_data), len(new_data) // 2]))     # the payload is read from its beginning
+                iso.modify_file_in_place(payload, new_len, iso_path)
             except Exception as e:
                 report('modify-fails:' + type(e).__name__, 'modify_file_in_place(%s, %d -> %d bytes, same sector count) raised %s: %s'
                        % (iso_path, old, new_len, type(e).__name__, str(e)[:80]), None)
